@@ -16,7 +16,7 @@
      nested_cls_to_dump_func of a root's dump func   cs_nested_dfns
      _META (class -> Meta class OBJECT)              cs_meta : reference into st_mobjs
      META_INITIALIZER (QUALNAME -> Meta.bind_to)     st_minit
-   The model is faithful including the open defects F2, F10, F11, F22.
+   The model is faithful including the open defects F2, F10, F11, F40.
    No proofs in this file. *)
 From DW Require Import PyStr StrConv.
 From Coq Require Import DecimalString.
@@ -603,7 +603,7 @@ Definition bind_default (s : sigma) (n : cid) (r : mref) : sigma :=
       let s1 := bind_attrs s n x in
       match cs_meta (st_cls s1 n) with
       | Some r0 => match st_mobjs s1 r0 with
-                   | Some old => set_mobj s1 r0 (meta_and old x)      (* _META[cls] &= x : in place (F22) *)
+                   | Some old => set_mobj s1 r0 (meta_and old x)      (* _META[cls] &= x : in place (F40) *)
                    | None => s1
                    end
       | None => updc s1 n (w_meta (Some r))
